@@ -107,7 +107,7 @@ func (m *monC10) Quiescent(td *TD, p Pending) *Viol {
 	for _, pl := range t.State.PlayerStates {
 		ids = append(ids, pl.PlayerID)
 	}
-	ids = append(ids, "ghost")
+	ids = append(ids, "ghost", "")
 	for _, id := range ids {
 		for _, kind := range allKinds {
 			snap, _ := cloneTable(t)
